@@ -408,7 +408,7 @@ func runLayoutCase(lc *layoutCase, root string) (res caseResult) {
 	if rng.Intn(10) < 3 && !lc.Crash {
 		wp = 2 + rng.Intn(2)
 	}
-	opts := engx.Options{WalParts: wp, MaxRowsPerSegment: []int{0, 2, 3, 5}[rng.Intn(4)]}
+	opts := engx.Options{WalParts: wp, MaxRowsPerSegment: []int{0, 2, 3, 5}[rng.Intn(4)], CompactionMethod: rng.Intn(3)}
 	if v := os.Getenv("VH_SEG"); v != "" {
 		fmt.Sscanf(v, "%d", &opts.MaxRowsPerSegment)
 	}
@@ -736,7 +736,7 @@ func runLayoutCase(lc *layoutCase, root string) (res caseResult) {
 				for _, f := range conc.order {
 					types = append(types, fmt.Sprintf("%s:%d", f, conc.fields[f].typ))
 				}
-				res.Detail = fmt.Sprintf("after step %d (%s) walparts=%d seg=%d types=%v: %s", i, st.A, opts.WalParts, opts.MaxRowsPerSegment, types, d)
+				res.Detail = fmt.Sprintf("after step %d (%s) walparts=%d seg=%d compaction-method=%d types=%v: %s", i, st.A, opts.WalParts, opts.MaxRowsPerSegment, opts.CompactionMethod, types, d)
 				if lc.NoSettle && strings.Contains(d, "not strictly sorted") && orderedFilesOverlap(e) {
 					res.OK = true
 					res.Known = "F-C04-1"
